@@ -53,6 +53,10 @@ def run(ctx):
     p6(ctx, R)
     p7(ctx, R)
     p8(ctx, R)
+    p12(ctx, R)
+    p13(ctx, R)
+    p14(ctx, R)
+    p15(ctx, R)
     g2(ctx, R)
     g4(ctx, R)
     g5(ctx, R)
@@ -984,3 +988,261 @@ def g6(ctx, R):
                 ctx.violation("G6", f, "case-sensitive-tag:%s" % norm(c)[:60], "the tag token is compared case-sensitively: %s" % norm(c)[:70],
                               node=c, witness='`header :COUNT "gt" "a" "1"` is rejected while `:count` is accepted')
     ctx.need("G6", "tag membership tests", n, 3)
+
+
+# =============================================================================== transitions (added after the first build)
+EXPECTED_AFTER = {
+    # (state function, token that was just accepted) -> tokens that may follow (RFC 5228 8.2)
+    ("stringlist", "string"): {"comma", "right_bracket"},
+    ("stringlist", "comma"): {"string"},
+    ("argument", "left_bracket"): {"string"},
+    ("arguments", "left_parenthesis"): {"identifier"},
+    ("arguments", "comma"): {"identifier"},
+    ("command", None): {"identifier"},
+}
+EXPECTED_UNKEYED = {
+    # function -> multiset of expected-sets installed without a token guard
+    "check_command_completion": [{"semicolon"}, {"left_cbracket"}, {"comma", "right_parenthesis"}],
+    "up": [{"comma", "right_parenthesis"}],
+}
+EXPECTED_FIRST = {"if": ["identifier"], "elsif": ["identifier"], "not": ["identifier"], "allof": ["left_parenthesis"],
+                  "anyof": ["left_parenthesis"]}
+
+
+def p12(ctx, R):
+    ctx.rule("P12", "expected-token transitions: after each accepted token exactly the RFC 5228 follow set is installed")
+    seen_keyed = {}
+    seen_unkeyed = {}
+    for f in R.Parser.methods.values():
+        role = f.name.lstrip("_")
+        cfg = None
+        for c in walk_no_nested(f.node):
+            if not (isinstance(c, ast.Call) and call_name(c) == R.set_expected.name):
+                continue
+            if f is R.parse:
+                continue
+            vals = [const_value(ctx.program, f, a) for a in c.args]
+            if any(v is TOP for v in vals):
+                ctx.notice("P12", "%s: %s installs a non-constant expected set" % (f.qualname, norm(c)))
+                continue
+            cfg = cfg or ctx.cfg(f)
+            tok = None
+            for fc in cfg.facts():
+                e, pol = fact_atom(fc)
+                cp = cmp_parts(e)
+                if cp and pol is True and cp[1] == "Eq" and isinstance(cp[0], ast.Name) and "type" in cp[0].id:
+                    v = const_value(ctx.program, f, cp[2])
+                    if isinstance(v, str) and all(cfg.guarded(n, lambda x, fc=fc: x is fc) for n in cfg.node_containing(c)):
+                        tok = v
+            if tok is not None or role == "command":
+                seen_keyed.setdefault((role, tok), []).append((set(vals), c, f))
+            else:
+                seen_unkeyed.setdefault(role, []).append((set(vals), c, f))
+    n = 0
+    for key, want in EXPECTED_AFTER.items():
+        got = seen_keyed.get(key, [])
+        n += 1
+        if len(got) == 1 and got[0][0] == want:
+            ctx.holds("P12", "%s after %s -> %s" % (key[0], key[1] or "<command start>", sorted(want)))
+        elif not got:
+            ctx.violation("P12", R.pm.get(key[0], R.parse), "transition-missing:%s/%s" % key, "after %s in %s no expected set is installed (the "
+                          "grammar allows only %s next)" % (key[1] or "a block-taking control", key[0], sorted(want)), node=R.pm.get(key[0], R.parse).node,
+                          witness=transition_witness(key))
+        else:
+            s_, c, f = got[0]
+            ctx.violation("P12", f, "transition:%s/%s" % key, "after %s the parser expects %s; the grammar allows only %s" % (
+                key[1] or "a block-taking control", sorted(s_), sorted(want)), node=c, witness=transition_witness(key))
+    for key, got in seen_keyed.items():
+        if key not in EXPECTED_AFTER:
+            ctx.notice("P12", "unreferenced transition %s -> %s" % (key, [sorted(g[0]) for g in got]))
+    for role, want in EXPECTED_UNKEYED.items():
+        got = [g[0] for g in seen_unkeyed.get(role, [])]
+        n += 1
+        if sorted(map(sorted, got)) == sorted(map(sorted, want)):
+            ctx.holds("P12", "%s installs %s" % (role, [sorted(w) for w in want]))
+        else:
+            f = R.pm.get(role, R.parse)
+            ctx.violation("P12", f, "completion-sets:%s" % role, "%s installs the expected sets %s; the grammar needs %s" % (
+                role, sorted(map(sorted, got)), sorted(map(sorted, want))), node=f.node,
+                witness="after a complete test / command the wrong token is demanded (valid scripts rejected) or none (garbage accepted)")
+    # first token of commands that take a test
+    table = R.concrete()
+    for cname, e in sorted(table.items()):
+        want = EXPECTED_FIRST.get(e["name"])
+        c = ctx.program.cls(cname)
+        g = ctx.program.method(c, "get_expected_first") if c else None
+        if want is None:
+            continue
+        n += 1
+        rets = [r.value for r in walk_no_nested(g.node) if isinstance(r, ast.Return) and r.value is not None] if g else []
+        vals = [const_value(ctx.program, g, r) for r in rets]
+        if vals and all(v == want for v in vals):
+            ctx.holds("P12", "%s.get_expected_first() == %s" % (cname, want))
+        else:
+            ctx.violation("P12", g or cname, "expected-first:%s" % e["name"], "%s.get_expected_first() returns %s; after `%s` the grammar needs %s"
+                          % (cname, vals, e["name"], want), node=g.node if g else None, file=R.cmod.relpath, line=e["lineno"],
+                          witness="`%s ;` style garbage is not rejected at the next token, or a valid test rejected" % e["name"])
+    ctx.need("P12", "transition obligations", n, 12)
+    # the test's own first-token set is installed when a test is adopted
+    adopt = [a for a in walk_no_nested(R.arguments.node) if isinstance(a, ast.Assign) and any(
+        isinstance(t, ast.Attribute) and t.attr.lstrip("_").endswith("expected") for t in a.targets)
+        and isinstance(a.value, ast.Call) and call_name(a.value) == "get_expected_first"]
+    if adopt:
+        ctx.holds("P12", "on adopting a test its get_expected_first() becomes the expected set")
+    else:
+        ctx.violation("P12", R.arguments, "expected-first-not-installed", "the first-token expectation of an adopted test is not installed",
+                      node=R.arguments.node, witness="`if anyof true {...}` (missing parenthesis) is accepted")
+
+
+def transition_witness(key):
+    return {
+        ("stringlist", "string"): '`["a" "b"]` (missing comma) is accepted',
+        ("stringlist", "comma"): '`["a",]` (trailing comma) is accepted',
+        ("argument", "left_bracket"): "`[]` (empty string list) is accepted",
+        ("arguments", "left_parenthesis"): "`anyof ()` (empty test list) is accepted",
+        ("arguments", "comma"): "`anyof (true,)` is accepted",
+        ("command", None): "`if { keep; }` (control without its test) is accepted",
+    }.get(key, "an ill-formed token sequence is accepted")
+
+
+def p13(ctx, R):
+    ctx.rule("P13", "a command / test is attached to its parent before it becomes the current command")
+    f = R.command
+    cfg = ctx.cfg(f)
+    for st in walk_no_nested(f.node):
+        if isinstance(st, ast.Assign) and any(isinstance(t, ast.Attribute) and "curcommand" in t.attr for t in st.targets) and isinstance(st.value, ast.Name):
+            v = st.value.id
+            if not any(isinstance(a, ast.Assign) and isinstance(a.value, ast.Call) and call_name(a.value) == R.lookup.name
+                       and any(isinstance(t, ast.Name) and t.id == v for t in a.targets) for a in walk_no_nested(f.node)):
+                continue
+            adds = [c for c in walk_no_nested(f.node) if isinstance(c, ast.Call) and call_name(c) == "addchild" and c.args
+                    and isinstance(c.args[0], ast.Name) and c.args[0].id == v]
+            add_nodes = [x for c in adds for x in cfg.node_containing(c)]
+
+            def no_parent(fc):
+                e, pol = fact_atom(fc)
+                cp = cmp_parts(e)
+                return bool(cp and "curcommand" in norm(cp[0]) and isinstance(cp[2], ast.Constant) and cp[2].value is None
+                            and ((cp[1] == "Is") == pol))
+            if add_nodes and all(cfg.guarded(n, no_parent, establish=lambda m: m in add_nodes) for n in cfg.nodes_for(st)):
+                ctx.holds("P13", "%s: nested command added to the current command's children before adoption" % f.qualname)
+            else:
+                ctx.violation("P13", f, "child-not-attached", "a command can become current without having been added to its parent's children",
+                              node=st, witness="commands inside a block are accepted but missing from the tree")
+            # the parent handed to the lookup is the current command
+            for a in walk_no_nested(f.node):
+                if isinstance(a, ast.Assign) and isinstance(a.value, ast.Call) and call_name(a.value) == R.lookup.name \
+                        and any(isinstance(t, ast.Name) and t.id == v for t in a.targets):
+                    if len(a.value.args) >= 2 and "curcommand" in norm(a.value.args[1]):
+                        ctx.holds("P13", "%s: new command's parent is the current command" % f.qualname)
+                    else:
+                        ctx.violation("P13", f, "parent-link", "the new command is not created with the current command as parent", node=a)
+    g = R.arguments
+    cfgg = ctx.cfg(g)
+    for st in walk_no_nested(g.node):
+        if isinstance(st, ast.Assign) and any(isinstance(t, ast.Attribute) and "curcommand" in t.attr for t in st.targets) and isinstance(st.value, ast.Name):
+            v = st.value.id
+            chk = [c for c in walk_no_nested(g.node) if isinstance(c, ast.Call) and call_name(c) == "check_next_arg" and len(c.args) >= 2
+                   and const_value(ctx.program, g, c.args[0]) == "test" and isinstance(c.args[1], ast.Name) and c.args[1].id == v]
+            nodes = [x for c in chk for x in cfgg.node_containing(c)]
+            if nodes and all(cfgg.dominates(nodes, n, exc=False) for n in cfgg.nodes_for(st)):
+                ctx.holds("P13", "%s: a test is handed to its parent (check_next_arg('test', ...)) before adoption" % g.qualname)
+            else:
+                ctx.violation("P13", g, "test-not-attached", "a test can become current without having been given to the command it belongs to",
+                              node=st, witness="`if not exists \"a\" {...}`: the inner test is missing from the tree")
+
+
+def p14(ctx, R):
+    ctx.rule("P14", "string lists: fresh list on '[', every string appended, the list handed over on ']'")
+    f = R.stringlist
+    cfg = ctx.cfg(f)
+
+    def tok(t):
+        def pred(fc):
+            e, pol = fact_atom(fc)
+            cp = cmp_parts(e)
+            return bool(cp and pol is True and cp[1] == "Eq" and const_value(ctx.program, f, cp[2]) == t)
+        return pred
+    apps = [st for st in walk_no_nested(f.node) if (isinstance(st, ast.AugAssign) and "curstringlist" in norm(st.target)) or (
+        isinstance(st, ast.Expr) and isinstance(st.value, ast.Call) and call_name(st.value) == "append" and "curstringlist" in norm(st.value.func.value))]
+    ok = len(apps) == 1 and all(cfg.guarded(n, tok("string")) for n in cfg.nodes_for(apps[0]))
+    if ok:
+        v = apps[0].value.elts[0] if isinstance(apps[0], ast.AugAssign) and isinstance(apps[0].value, ast.List) and apps[0].value.elts else (
+            apps[0].value.args[0] if isinstance(apps[0], ast.Expr) and apps[0].value.args else None)
+        ok = isinstance(v, ast.Call) and call_name(v) == "decode" and isinstance(v.func.value, ast.Name) and "value" in v.func.value.id
+    if ok:
+        # unconditionally within the `string` branch: every path from the token fact passes the append
+        an = cfg.nodes_for(apps[0])
+        for fc in cfg.facts(tok("string")):
+            r = cfg.reach(fc, avoid=an, exc=False)
+            if cfg.exit in r:
+                ok = False
+    if ok:
+        ctx.holds("P14", "%s: each string token is appended (decoded, otherwise unmodified)" % f.qualname)
+    else:
+        ctx.violation("P14", f, "item-not-appended", "string tokens inside brackets are not each appended, verbatim, to the current list", node=f.node,
+                      witness='`["a", "b"]` is accepted but an item is missing or altered in the tree')
+    hand = [c for c in walk_no_nested(f.node) if isinstance(c, ast.Call) and call_name(c) == "check_next_arg" and len(c.args) >= 2
+            and const_value(ctx.program, f, c.args[0]) == "stringlist" and "curstringlist" in norm(c.args[1])]
+    if hand and all(cfg.guarded(n, tok("right_bracket")) for c in hand for n in cfg.node_containing(c)):
+        ctx.holds("P14", "%s: the accumulated list is given to the command on `]`" % f.qualname)
+    else:
+        ctx.violation("P14", f, "list-not-handed-over", "on `]` the accumulated list is not given to the current command as a stringlist", node=f.node,
+                      witness="bracketed lists are accepted and dropped")
+    g = R.argument
+    cfgg = ctx.cfg(g)
+    inits = [st for st in walk_no_nested(g.node) if isinstance(st, ast.Assign) and any("curstringlist" in norm(t) for t in st.targets)]
+
+    def lb(fc):
+        e, pol = fact_atom(fc)
+        cp = cmp_parts(e)
+        return bool(cp and pol is True and cp[1] == "Eq" and const_value(ctx.program, g, cp[2]) == "left_bracket")
+    uncond = True
+    inodes = [n for st in inits for n in cfgg.nodes_for(st)]
+    for fc in cfgg.facts(lb):
+        if cfgg.exit in cfgg.reach(fc, avoid=inodes, exc=False):
+            uncond = False
+    if inits and uncond and all(isinstance(st.value, ast.List) and not st.value.elts for st in inits) and all(
+            cfgg.guarded(n, lb) for st in inits for n in cfgg.nodes_for(st)):
+        ctx.holds("P14", "%s: `[` starts a fresh, empty list" % g.qualname)
+    else:
+        ctx.violation("P14", g, "list-not-fresh", "`[` does not start a fresh empty list", node=g.node,
+                      witness="items of a previous list leak into the next one")
+    sw = [st for st in walk_no_nested(g.node) if isinstance(st, ast.Assign) and any("cstate" in norm(t) for t in st.targets)]
+    if sw and all(isinstance(st.value, ast.Attribute) and st.value.attr == R.stringlist.name for st in sw):
+        ctx.holds("P14", "`[` switches the state function to the string-list handler")
+    else:
+        ctx.violation("P14", g, "state-switch", "`[` does not switch to the string-list state", node=g.node)
+
+
+def p15(ctx, R):
+    ctx.rule("P15", "token class -> argument type mapping (string/multiline -> string, number -> number, tag -> tag), value passed verbatim")
+    g = R.argument
+    cfg = ctx.cfg(g)
+    want = {"string": "string", "multiline": "string", "number": "number", "tag": "tag"}
+    got = {}
+    for c in walk_no_nested(g.node):
+        if not (isinstance(c, ast.Call) and call_name(c) == "check_next_arg" and len(c.args) >= 2):
+            continue
+        a0, a1 = c.args[0], c.args[1]
+        toks = set()
+        for fc in cfg.facts():
+            e, pol = fact_atom(fc)
+            cp = cmp_parts(e)
+            if cp and pol is True and cp[1] in ("In", "Eq") and isinstance(cp[0], ast.Name) and "type" in cp[0].id:
+                v = const_value(ctx.program, g, cp[2])
+                if v is not TOP and all(cfg.guarded(n, lambda x, fc=fc: x is fc) for n in cfg.node_containing(c)):
+                    toks |= set(v if isinstance(v, (list, tuple, set)) else [v])
+        t0 = const_value(ctx.program, g, a0)
+        for t in toks:
+            got[t] = t if (t0 is TOP and isinstance(a0, ast.Name) and "type" in a0.id) else t0
+        verb = isinstance(a1, ast.Call) and call_name(a1) == "decode" and isinstance(a1.func.value, ast.Name) and "value" in a1.func.value.id
+        if not verb:
+            ctx.violation("P15", g, "value-altered:%s" % norm(a1)[:40], "a token's text is not passed to the command verbatim: %s" % norm(a1), node=c,
+                          witness="argument values in the tree differ from the source")
+    for t, w in want.items():
+        if got.get(t) == w:
+            ctx.holds("P15", "%s token -> %s argument" % (t, w))
+        else:
+            ctx.violation("P15", g, "type-mapping:%s" % t, "a %s token is given to the command as %r (expected %r)" % (t, got.get(t), w), node=g.node,
+                          witness="`%s` arguments are rejected or accepted in the wrong slots" % t)
